@@ -42,6 +42,17 @@ type apiRunner struct {
 	seenOids map[primitive.ObjectID]bool
 	book     ixBook          // secondary indexes created by the successful calls so far (C15)
 	reported map[string]bool // C15 issues already reported in this history (an incoherent index stays incoherent)
+	// C03: snapshots held until the end of the history
+	snapAt     int // the catalog published by this step is held (0: by the second step)
+	nstep      int
+	heldCat    *lungo.Catalog
+	heldDump   string
+	heldStep   int
+	findStep   int
+	heldFind   []bson.D // the decoded result of one find
+	heldFindJ  string
+	heldCursor lungo.ICursor // a second, unread cursor of the same find
+	heldReply  string
 }
 
 func newAPIRunner(env *apiEnv, extra string) *apiRunner {
@@ -76,6 +87,7 @@ func (m *apiRunner) step(c *apiCall) apiStep {
 	post := env.engine.Catalog()
 	postDump := apiDump(post)
 	m.prevDump = postDump
+	m.nstep++
 
 	// events appended by this call; generated ObjectIDs in order
 	preLog, postLog := oplogOf(pre), oplogOf(post)
@@ -118,6 +130,30 @@ func (m *apiRunner) step(c *apiCall) apiStep {
 		if !m.probe() {
 			viol("C20", "a locked transaction cannot be started promptly after a failed call", "wedged-after:"+c.M, reply)
 		}
+	}
+
+	// C03: the catalog object that was current before the call is a snapshot: whatever the call did
+	// (also a failed one, an index call, an expiry pass), it still dumps to the same string
+	safely("snapshot", func() {
+		if now := apiDump(pre); now != preDump {
+			viol("C03", "the catalog that was current before the call reads differently after it", "snapshot-mutated:"+c.M, "reply "+clip(reply, 80)+" before | after: "+dumpDiff(preDump, now))
+		}
+	})
+	// hold the catalog of one step and one find (its decoded result and a second, unread cursor) until the end
+	at := m.snapAt
+	if at <= 0 {
+		at = 2
+	}
+	if m.heldCat == nil && m.nstep >= at && postDump != preDump {
+		m.heldCat, m.heldDump, m.heldStep = post, postDump, m.nstep
+	}
+	if c.M == "find" && m.heldFind == nil && len(env.lastFind) > 0 && strings.HasPrefix(reply, `{"ok"`) {
+		m.heldFind, m.heldFindJ, m.heldReply, m.findStep = env.lastFind, encDocList(env.lastFind), reply, m.nstep
+		safely("cursor", func() {
+			if csr, err := env.client.Database(c.DB).Collection(c.Coll).Find(context.Background(), c.Q, findOpts(c)); err == nil {
+				m.heldCursor = csr
+			}
+		})
 	}
 
 	// C02: a failed call leaves the dump (documents, indexes, oplog) byte-identical
@@ -352,6 +388,41 @@ func (m *apiRunner) probe() bool {
 	case <-time.After(3 * time.Second):
 		return false
 	}
+}
+
+// finish re-reads the snapshots held since earlier steps (before the final probe).
+func (m *apiRunner) finish() (out []run.Violation) {
+	viol := func(what, witness, detail string) {
+		out = append(out, run.Violation{Property: "C03", What: what, Witness: witness, Req: m.histReq(), Detail: clip(detail, 1500)})
+	}
+	defer func() {
+		if p := recover(); p != nil {
+			out = append(out, run.Violation{Property: "C20", What: "monitor snapshot panicked", Witness: "monitor-panic:snapshot", Req: m.histReq(), Detail: fmt.Sprint(p)})
+		}
+	}()
+	if m.heldCat != nil {
+		if now := apiDump(m.heldCat); now != m.heldDump {
+			viol(fmt.Sprintf("the catalog published by step %d reads differently at the end of the history", m.heldStep), "snapshot-mutated:held-catalog", dumpDiff(m.heldDump, now))
+		}
+	}
+	if m.heldFind != nil {
+		if now := encDocList(m.heldFind); now != m.heldFindJ {
+			viol(fmt.Sprintf("the decoded result of the find of step %d changed", m.findStep), "snapshot-mutated:find-result", "was "+m.heldFindJ+" now "+now)
+		}
+	}
+	if m.heldCursor != nil {
+		var docs []bson.D
+		now := ""
+		if err := m.heldCursor.All(context.Background(), &docs); err != nil {
+			now = errReply(err)
+		} else {
+			now = `{"ok":{"docs":` + encDocList(docs) + `}}`
+		}
+		if now != m.heldReply {
+			viol(fmt.Sprintf("a cursor opened at step %d returns other documents at the end of the history", m.findStep), "snapshot-mutated:cursor", "was "+m.heldReply+" now "+now)
+		}
+	}
+	return out
 }
 
 // finalProbe inserts into a scratch collection (after the last comparison of the history).
